@@ -27,7 +27,7 @@ FUNCTIONS = ['construct_repetition_code_multi_round_circuit', 'construct_repetit
              'RepetitionExperimentKernel.get_stabilizer_and_projected_cycle_acquisition_indices', 'RepetitionExperimentKernel.get_projected_cycle_acquisition_indices',
              'RepetitionExperimentKernel.get_heralded_calibration_acquisition_indices', 'RepetitionExperimentKernel.get_projected_calibration_acquisition_indices',
              'RepetitionExperimentKernel.kernel_cycle_length']
-BOUNDS = {'quick': "rounds lists of length 1..2 with every entry a symbolic integer in [0,3] (pairwise distinct), code distance d in {2,3}, initial states all-zero and alternating; "
+BOUNDS = {'quick': "rounds lists of length 1..2 with every entry a symbolic integer in [0,5] (length 1) / [0,4] (length 2, d = 2) / [0,3] (length 2, d = 3), pairwise distinct, code distance d in {2,3}, initial states all-zero and alternating; "
                    "chain description from_chain(2d-1)",
           'thorough': "entries in [0,5], lists of length <= 3 (d = 2) / <= 2 (d in {3,4}), all computational initial states for d = 2"}
 OUTSIDE = ["round counts above the bound (the unrolled circuit grows with them)", "descriptions other than from_chain", "experiment_repetitions > 1 (translation is C12's subject)"]
@@ -45,7 +45,7 @@ def jobs(tier, seed):
                 for init in ('zero', 'alt'):
                     if d == 3 and k == 2 and init == 'alt':
                         continue
-                    out.append({'d': d, 'k': k, 'R': 3, 'init': init})
+                    out.append({'d': d, 'k': k, 'R': 5 if k == 1 else (4 if d == 2 else 3), 'init': init})
     else:
         for d, kmax in ((2, 3), (3, 2), (4, 2)):
             for k in range(1, kmax + 1):
